@@ -443,7 +443,9 @@ def e2e(ctx, variant, found):
         for lo, hi in zip(starts, starts[1:]):
             ft = min([k for k in tlc_bad if lo <= k < hi] or [0])
             fp = min([k for k in py_bad if lo <= k < hi] or [0])
-            if ft != fp or (ft and tlc_bad[ft] != py_bad[fp]):
+            # at the first violating event the two must name a common verdict (a relay that was not closed also keeps
+            # its connection count, which only the model-based count verdict of TLC sees as a second violation)
+            if ft != fp or (ft and not (tlc_bad[ft] & py_bad[fp])):
                 k = ft or fp
                 return ("TLC and the check disagree on the first violating event of e2e behaviour %d: TLC %s, check %s (e.g. %s)"
                         % (events[lo - 1]["beh"], (ft, sorted(tlc_bad.get(ft, []))), (fp, sorted(py_bad.get(fp, []))),
